@@ -960,6 +960,7 @@ func runC13(c *Ctx) {
 	ruleChunkLoopComplete(c)
 	ruleSidePairing(c)
 	ruleGuardSubject(c)
+	ruleStaleAfterEdit(c)
 	ruleAllocBounded(c, "mdiff", false)
 
 	// ---- R-LR-MIRROR
